@@ -13,6 +13,7 @@ import (
 	"github.com/storacha/go-ucanto/transport"
 	pdm "github.com/storacha/go-ucanto/ucan/datamodel/payload"
 	"github.com/storacha/go-ucanto/ucan/formatter"
+	"net/url"
 	"sort"
 	"strings"
 	"sync"
@@ -689,6 +690,23 @@ func (cw *CWorld) expand(s string) string {
 	if strings.HasSuffix(s, "^") { // the same DID string with the case of its letters swapped
 		return swapCase(cw.expand(strings.TrimSuffix(s, "^")))
 	}
+	if i := strings.Index(s, "="); strings.HasPrefix(s, "@") && i > 1 && strings.Trim(s[1:i], "0123456789") == "" { // "@3=<variant>": a hierarchical URL owned by principal 3
+		n := atoi(s[1:i])
+		base := fmt.Sprintf("https://Files%d.Example.com/u/a%%2Fb/", n)
+		switch s[i+1:] {
+		case "lower":
+			return strings.ToLower(base[:30]) + base[30:]
+		case "noslash":
+			return strings.TrimSuffix(base, "/")
+		case "unescaped":
+			return strings.Replace(base, "%2F", "/", 1)
+		case "star":
+			return base + "*"
+		case "sub":
+			return base + "x/y%2Fz"
+		}
+		return base
+	}
 	if i := strings.IndexAny(s, "#/?!"); i > 0 { // "@3#frag", "@3/path", "@3?q": a DID URL; "@3!" = upper-case scheme
 		if s[i] == '!' {
 			d := cw.expand(s[:i])
@@ -814,6 +832,9 @@ func (cw *CWorld) capability(log *runLog) validator.CapabilityParser[NbMap] {
 }
 
 func (cw *CWorld) capabilityFor(can string, log *runLog) validator.CapabilityParser[NbMap] {
+	if cw.A.Desc.With == "liburi" { // the library's URI reader, adapted to read resources
+		return validator.NewCapability[NbMap](can, uriWith{schema.URI()}, nbReader{}, cw.derivesFunc(log))
+	}
 	if cw.A.Desc.With == "libdid" { // the library's own reader of DID resources
 		return validator.NewCapability[NbMap](can, schema.DIDString(), nbReader{}, cw.derivesFunc(log))
 	}
@@ -849,7 +870,14 @@ func (cw *CWorld) context(log *runLog) (canIssue validator.CanIssueFunc[any], ch
 			return issuer == cw.P[w.Authority].did || c.With() == issuer.String()
 		case "table":
 			for _, r := range w.Table {
-				if r.With == c.With() && cw.P[r.P].did == issuer {
+				// the owner table names resources as the capability's own reader reads them
+				rw := r.With
+				if w.Desc.With == "liburi" {
+					if x, err := (uriWith{schema.URI()}).Read(rw); err == nil {
+						rw = x
+					}
+				}
+				if rw == c.With() && cw.P[r.P].did == issuer {
 					return true
 				}
 			}
@@ -1081,4 +1109,17 @@ func swapCase(s string) string {
 		}
 	}
 	return string(b)
+}
+
+// uriWith adapts the library's URI reader to a resource reader: the resource read is the URI printed back
+type uriWith struct {
+	r schema.Reader[any, url.URL]
+}
+
+func (u uriWith) Read(input string) (string, failure.Failure) {
+	v, err := u.r.Read(input)
+	if err != nil {
+		return "", err
+	}
+	return v.String(), nil
 }
